@@ -64,8 +64,11 @@ instance (ord : F → F → Bool) (env : Env) (m : Meta) : Decidable (ValidBy or
 /-- **the specification**: the format's invariants, `min <= max` being IEEE `<=` -/
 def Valid (env : Env) (m : Meta) : Prop := ValidBy F.le env m
 
+/-- "not `a > b`" — the order test `Axis._validate_model` actually performs -/
+def ordCode (a b : F) : Bool := !F.gt a b
+
 /-- what the validators enforce: the same with "not `min > max`" (which a NaN bound passes) -/
-def ValidCode (env : Env) (m : Meta) : Prop := ValidBy (fun a b => !F.gt a b) env m
+def ValidCode (env : Env) (m : Meta) : Prop := ValidBy ordCode env m
 
 instance (env : Env) (m : Meta) : Decidable (Valid env m) := by unfold Valid; infer_instance
 instance (env : Env) (m : Meta) : Decidable (ValidCode env m) := by unfold ValidCode; infer_instance
